@@ -10,8 +10,11 @@ void simio_fail_open(int on);                 // fopen of the simulated path fai
 void simio_short_read_at(long offset);        // fread delivers only the bytes before `offset` (-1: off)
 unsigned long simio_stats(int which);         // 0 opens, 1 closes, 2 bytes delivered, 3 short reads, 4 failed opens
 void simio_reset(void);
+void simio_set_handle_limit(int n);          // fopen fails with EMFILE while n simulated handles are open (0: no limit)
 // allocator layer
 void simalloc_window(int on);                 // only allocations made while the window is open may fail
 void simalloc_fail_at(long nth);              // the nth allocation (0-based) inside windows fails with ENOMEM (-1: off)
-unsigned long simalloc_stats(int which);      // 0 allocations seen in windows, 1 failures injected
+unsigned long simalloc_stats(int which);
+size_t simalloc_last_size(void);              // size of the most recent request seen inside a window
+// requests of 1 GiB or more made inside a window are refused (ENOMEM) without touching the real allocator      // 0 allocations seen in windows, 1 failures injected
 }
